@@ -25,7 +25,10 @@ import (
 
 // fwCase is a recipe for one firmware image (built inside the child).
 type fwCase struct {
-	Kind string `json:"kind"` // sevmeta | tdxmeta | tdxregion | truncate | mutate | raw
+	Kind string `json:"kind"` // sevmeta | tdxmeta | tdxregion | tdxfv | truncate | mutate | raw
+	// tdxfv: data offset / size of the boot firmware volume
+	FvOff  uint32 `json:"fvoff,omitempty"`
+	FvSize uint32 `json:"fvsize,omitempty"`
 	// sevmeta / tdxmeta
 	Offset   uint32 `json:"offset"`
 	Sections uint32 `json:"sections"`
@@ -34,6 +37,7 @@ type fwCase struct {
 	SecType uint32 `json:"sectype"`
 	MemSize uint64 `json:"memsize"`
 	MemBase uint64 `json:"membase,omitempty"` // 0: keep the example's base
+	Attr    uint32 `json:"attr,omitempty"`    // section attributes (bit 0: extend)
 	// truncate / mutate
 	Size int    `json:"size"` // base image size
 	Cut  int    `json:"cut"`
@@ -120,6 +124,32 @@ func buildFw(c fwCase) []byte {
 		if c.MemBase != 0 {
 			binary.LittleEndian.PutUint64(s[8:], c.MemBase)
 		}
+		if c.Attr != 0 {
+			binary.LittleEndian.PutUint32(s[28:], c.Attr)
+		}
+		return img
+	case "tdxfv":
+		img := fakeovmf.CleanExample(&fx.TB{}, 2*1024*1024)
+		bfv, cfv := img[0x100+16+16:], img[0x100+16+16+32:]
+		le32(bfv[0:], c.FvOff)
+		le32(bfv[4:], c.FvSize)
+		binary.LittleEndian.PutUint64(bfv[16:], uint64(c.FvSize)) // memory size = data size, as the format demands
+		binary.LittleEndian.PutUint64(bfv[8:], (1<<32)-uint64(c.FvSize))
+		// the configuration volume takes the rest of the image, so that the volumes add up to the image
+		// size; where nothing is left it becomes a scratch-memory section
+		rest := uint32(len(img)) - c.FvSize
+		if rest != 0 && rest <= uint32(len(img)) {
+			le32(cfv[0:], 0)
+			le32(cfv[4:], rest)
+			binary.LittleEndian.PutUint64(cfv[16:], uint64(rest))
+			binary.LittleEndian.PutUint64(cfv[8:], (1<<32)-uint64(c.FvSize)-uint64(rest))
+		} else {
+			le32(cfv[0:], 0)
+			le32(cfv[4:], 0)
+			binary.LittleEndian.PutUint64(cfv[8:], 0x820000)
+			binary.LittleEndian.PutUint64(cfv[16:], 0x1000)
+			le32(cfv[24:], 3)
+		}
 		return img
 	case "truncate":
 		img := fakeovmf.CleanExample(&fx.TB{}, c.Size)
@@ -191,6 +221,7 @@ type parserRow struct {
 	Ln         int    `json:"Ln"`
 	Z          int    `json:"Z"`
 	MeasureAll bool   `json:"measureAll"`
+	Ext        bool   `json:"ext"`
 	T          int    `json:"T"`
 	E          int    `json:"E"`
 }
@@ -280,7 +311,7 @@ func RunC08(run *vk.Run) {
 			cases = append(cases, c)
 		}
 	}
-	for _, w := range []string{"sevmeta", "tdxmeta", "tdxregion", "guidtable"} {
+	for _, w := range []string{"sevmeta", "tdxmeta", "tdxregion", "tdxfv", "guidtable"} {
 		if _, err := vk.RunTLC(vk.TLCOpts{Module: "Parsers", Config: "Neg_Parsers_" + w + ".cfg", Timeout: 5 * time.Minute, ExpectViolation: true}); err != nil {
 			run.Infra(err)
 			return
@@ -309,6 +340,21 @@ func RunC08(run *vk.Run) {
 				fc = embedTdx(c.Row, mW)
 			case "guidtable":
 				fc = fwCase{Kind: "guidtable", Size: c.Row.L, Cut: c.Row.T, Pos: c.Row.E, Key: "guidtable"}
+			case "tdxfv":
+				// the 2 MiB image is L = mW/2 units; values above L come from the top of the 32-bit range
+				unit := uint32(2 * 1024 * 1024 / (mW / 2))
+				conc := func(v int) uint32 {
+					if v <= mW/2 {
+						return uint32(v) * unit
+					}
+					return uint32(0) - uint32(mW-v)*unit
+				}
+				fc = fwCase{Kind: "tdxfv", FvOff: conc(c.Row.O), FvSize: conc(c.Row.S)}
+				if c.Row.O == 0 && c.Row.S == 0 {
+					fc.FvOff = 1 // keep the recipe distinguishable from the zero value
+				}
+				sum := uint64(fc.FvOff) + uint64(fc.FvSize)
+				fc.Key = fmt.Sprintf("tdxfv off%simage size%simage sum%s2^32 sum-mod-2^32%simage", rel(int64(fc.FvOff), 2*1024*1024), rel(int64(fc.FvSize), 2*1024*1024), rel(int64(sum), 1<<32), rel(int64(uint32(sum)), 2*1024*1024))
 			default:
 				fc = fwCase{Kind: "tdxregion", SecType: 3}
 				img := uint64(2 * 1024 * 1024)
@@ -332,6 +378,11 @@ func RunC08(run *vk.Run) {
 					fc.SecType = 2 // the hand-off block is allocated in every mode
 				}
 				fc.Key = fmt.Sprintf("tdxregion type%d size%simage", fc.SecType, rel(int64(fc.MemSize>>12), int64(img>>12)))
+				if c.Row.Ext && fc.MemSize <= img {
+					// flagged for extension (bit 0), with and without other attribute bits
+					fc.Attr = []uint32{1, 3, 0x80000001}[c.Row.Z%3]
+					fc.Key += fmt.Sprintf(" attr=%#x", fc.Attr)
+				}
 				if fc.MemSize == 1<<31 {
 					fc.Key += " 2GiB"
 				}
@@ -409,16 +460,22 @@ func RunC08(run *vk.Run) {
 			// same input class as the tdxregion witnesses: classify by cause, not by how it was generated
 			key = fmt.Sprintf("tdxregion:type%d", t)
 		}
+		// time or memory: for an oversized TDVF region which of the two is hit first depends on the
+		// machine's load (a 2 GiB buffer is allocated, zeroed and hashed), so they share one key there
+		timeKey, memKey := "time-unbounded:"+key, "memory-unbounded:"+key
+		if strings.HasPrefix(key, "tdxregion:") {
+			timeKey, memKey = "resource-unbounded:"+key, "resource-unbounded:"+key
+		}
 		switch cr.Status {
 		case "panic":
 			run.Violation("panic:"+key, fmt.Sprintf("firmware analysis panics on image class [%s] (%+v): %s", c.Key, c, cr.Detail), rep)
 		case "hang":
-			run.Violation("time-unbounded:"+key, fmt.Sprintf("firmware analysis of a %d-byte image of class [%s] (%+v) did not finish within 8 s", size, c.Key, c), rep)
+			run.Violation(timeKey, fmt.Sprintf("firmware analysis of a %d-byte image of class [%s] (%+v) did not finish within 8 s", size, c.Key, c), rep)
 		case "crash":
-			run.Violation("memory-unbounded:"+key, fmt.Sprintf("firmware analysis of a %d-byte image of class [%s] (%+v) exhausted the 4 GiB address-space limit: %s", size, c.Key, c, cr.Detail), rep)
+			run.Violation(memKey, fmt.Sprintf("firmware analysis of a %d-byte image of class [%s] (%+v) exhausted the 4 GiB address-space limit: %s", size, c.Key, c, cr.Detail), rep)
 		default:
 			if cr.Alloc > uint64(64*size)+64<<20 {
-				run.Violation("memory-unbounded:"+key, fmt.Sprintf("firmware analysis of a %d-byte image of class [%s] allocated %d bytes", size, c.Key, cr.Alloc), rep)
+				run.Violation(memKey, fmt.Sprintf("firmware analysis of a %d-byte image of class [%s] allocated %d bytes", size, c.Key, cr.Alloc), rep)
 			}
 		}
 		run.Case(string(raws[i]), c.Kind != "raw")
@@ -427,7 +484,7 @@ func RunC08(run *vk.Run) {
 		}
 	}
 	run.Exhaustive = true
-	run.Rule = "TLC enumerates every field value at reduced width for the SEV metadata, TDX metadata and non-firmware-volume section skeletons of Parsers.tla; every distinct witness class (relations between offset, header size, count*size wrap-around, declared length, section size and image size) is embedded into a real image and given to all ten firmware entry points in a guarded child process; plus truncations and seeded single-byte mutations of valid 4 KiB and 2 MiB images"
+	run.Rule = "TLC enumerates every field value at reduced width for the SEV metadata, TDX metadata, firmware-volume and non-firmware-volume section skeletons of Parsers.tla; every distinct witness class (relations between offset, header size, count*size wrap-around, declared length, section size and image size) is embedded into a real image and given to all ten firmware entry points in a guarded child process; plus truncations and seeded single-byte mutations of valid 4 KiB and 2 MiB images"
 }
 
 // oversizedTdxRegion returns the section type (2 = TD_HOB, 3 = TempMem) of the first TDVF
